@@ -111,6 +111,14 @@ where
         }
     } // end of hash_item
 
+    /// verification hook: the per-position register values (read only)
+    #[cfg(feature = "verif-hooks")]
+    pub fn verif_registers(&self) -> Vec<f64> {
+        (0..self.m)
+            .map(|k| self.maxvaluetracker.get_value(k))
+            .collect()
+    }
+
     /// return final signature.
     pub fn get_signature(&self) -> &Vec<D> {
         &self.signature
@@ -364,6 +372,14 @@ where
             i += 1;
         } // end of while
     } // end of hash_weigthed_hashmap
+
+    /// verification hook: the per-position register values (read only)
+    #[cfg(feature = "verif-hooks")]
+    pub fn verif_registers(&self) -> Vec<f64> {
+        (0..self.m)
+            .map(|k| self.maxvaluetracker.get_value(k))
+            .collect()
+    }
 
     /// return final signature.
     pub fn get_signature(&self) -> &Vec<D> {
